@@ -2,6 +2,7 @@ package iolib
 
 import (
 	"bufio"
+	"bytes"
 	"errors"
 	"fmt"
 	"io"
@@ -224,10 +225,13 @@ func (f *File) Read(n int) (rt.Value, error) {
 			return rt.NilValue, err
 		}
 	}
-	b := make([]byte, n)
-	n, err := io.ReadFull(f.reader, b)
-	if err == nil || err == io.ErrUnexpectedEOF {
-		return rt.StringValue(string(b[:n])), nil
+	// The buffer grows with what is actually read: n comes from the Lua
+	// program and can be much larger than the file (or than what can be
+	// allocated).
+	var buf bytes.Buffer
+	_, err := io.CopyN(&buf, f.reader, int64(n))
+	if err == nil || err == io.EOF && buf.Len() > 0 {
+		return rt.StringValue(buf.String()), nil
 	}
 	return rt.NilValue, err
 }
